@@ -105,6 +105,7 @@ def run(chk: Check) -> None:
     run_optional_truthiness(chk, ix)
     run_by_name_binding(chk, ix)
     run_duplicate_exemptions(chk, ix)
+    run_comparison_tables(chk, ix)
 
     # ---------------- R12.1
     r1 = chk.rule("R12.1", "in every branch guarded by <name> == '<operator spelling>', the Python operator applied to the operands / the IR opcode selected is the one spelled, with operands in parameter order", floor=30)
@@ -257,9 +258,12 @@ def check_value(e: ast.expr, sym: str, params: list[str]):
     if isinstance(e, ast.Compare) and len(e.ops) == 1 and is_operand(e.left) and is_operand(e.comparators[0]):
         if sym not in CMP:
             return None
+        l, r = e.left, e.comparators[0]
+        mirror = {"<": ">", ">": "<", "<=": ">=", ">=": "<="}
+        if sym in mirror and isinstance(e.ops[0], CMP[mirror[sym]]) and params.index(l.id) > params.index(r.id):
+            return True, ""  # `right < left` for '>': the mirrored operator with the operands exchanged is the same comparison
         if not isinstance(e.ops[0], CMP[sym]):
             return False, f"`{norm(e)}`"
-        l, r = e.left, e.comparators[0]
         if isinstance(e.ops[0], NONCOMM) and isinstance(l, ast.Name) and isinstance(r, ast.Name) and l.id in params and r.id in params:
             if params.index(l.id) > params.index(r.id):
                 return False, f"`{norm(e)}` with operands swapped"
@@ -698,3 +702,80 @@ def run_duplicate_exemptions(chk: Check, ix) -> None:
             r7.ok(key, f.loc(c))
         else:
             r7.violation(key, f.loc(c), f"the clause `{norm(c)[:140]}` exempts the pair whatever the types of the actuals: a `*tuple` and a `**TypedDict` of known shape that both supply one parameter are accepted although CPython raises TypeError (the sibling clause does look for TypedDictType)")
+
+
+def run_comparison_tables(chk: Check, ix) -> None:
+    """R12.8: a static comparison of two values gives, for each spelled operator, what Python's operator gives."""
+    r = chk.rule("R12.8", "reachability.fixed_comparison decides `sys.version_info[...] <op> literal` and `sys.platform <op> literal` for the configured target; its operands are totally ordered, so the function is evaluated abstractly over the three orderings of (left, right): whichever way it is written (a chain of `if op == '<'` branches, or locals such as `less = left < right` and a table from operator spellings to boolean expressions over them), each of the six operators must answer what Python's operator answers in each ordering", floor=6)
+    f = ix.func("mypy.reachability.fixed_comparison")
+    params = [a.arg for a in f.params]
+    if len(params) != 3:
+        raise AnalysisError("fixed_comparison: expected (left, op, right)")
+    L, OP, R_ = params
+    truth = {"==": lambda o: o == 0, "!=": lambda o: o != 0, "<": lambda o: o < 0, "<=": lambda o: o <= 0, ">": lambda o: o > 0, ">=": lambda o: o >= 0}
+    cmpops = {ast.Eq: "==", ast.NotEq: "!=", ast.Lt: "<", ast.LtE: "<=", ast.Gt: ">", ast.GtE: ">="}
+    local_defs = {}
+    for a in f.node.body:
+        if isinstance(a, ast.Assign) and len(a.targets) == 1 and isinstance(a.targets[0], ast.Name):
+            local_defs[a.targets[0].id] = a.value
+
+    class Unknown(Exception):
+        pass
+
+    def ev(e: ast.expr, o: int):
+        if isinstance(e, ast.Constant) and isinstance(e.value, bool):
+            return e.value
+        if isinstance(e, ast.Name) and e.id in local_defs:
+            return ev(local_defs[e.id], o)
+        if isinstance(e, ast.UnaryOp) and isinstance(e.op, ast.Not):
+            return not ev(e.operand, o)
+        if isinstance(e, ast.BoolOp):
+            vs = [ev(x, o) for x in e.values]
+            return all(vs) if isinstance(e.op, ast.And) else any(vs)
+        if isinstance(e, ast.Compare) and len(e.ops) == 1 and type(e.ops[0]) in cmpops:
+            a, b = norm(e.left), norm(e.comparators[0])
+            sym = cmpops[type(e.ops[0])]
+            if (a, b) == (L, R_):
+                return truth[sym](o)
+            if (a, b) == (R_, L):
+                return truth[sym](-o)
+        if isinstance(e, ast.Subscript) and isinstance(e.value, ast.Name) and e.value.id in local_defs and isinstance(local_defs[e.value.id], ast.Dict):
+            # rmap[left == right] with rmap = {False: ALWAYS_FALSE, True: ALWAYS_TRUE}
+            d = local_defs[e.value.id]
+            k = ev(e.slice, o)
+            for kk, vv in zip(d.keys, d.values):
+                if isinstance(kk, ast.Constant) and kk.value is k:
+                    return norm(vv)
+        if isinstance(e, ast.IfExp):
+            return ev(e.body, o) if ev(e.test, o) else ev(e.orelse, o)
+        if isinstance(e, ast.Name) and e.id in ("ALWAYS_TRUE", "ALWAYS_FALSE"):
+            return e.id
+        raise Unknown(norm(e)[:60])
+
+    def as_bool(v):
+        return {"ALWAYS_TRUE": True, "ALWAYS_FALSE": False}.get(v, v)
+    found: dict[str, ast.expr] = {}
+    # form 1: if-chain
+    for i in f.node.body:
+        if isinstance(i, ast.If) and isinstance(i.test, ast.Compare) and norm(i.test.left) == OP and isinstance(i.test.ops[0], ast.Eq) and isinstance(i.test.comparators[0], ast.Constant):
+            rets = [s for s in i.body if isinstance(s, ast.Return) and s.value is not None]
+            if rets:
+                found[i.test.comparators[0].value] = rets[0].value
+    # form 2: a table keyed by operator spellings
+    for name, d in local_defs.items():
+        if isinstance(d, ast.Dict) and d.keys and all(isinstance(k, ast.Constant) and k.value in truth for k in d.keys):
+            for k, v in zip(d.keys, d.values):
+                found.setdefault(k.value, v)
+    if len(found) < 6:
+        raise AnalysisError(f"fixed_comparison: operators recognised: {sorted(found)}; the rule cannot read the new shape of the function")
+    names = {-1: "left < right", 0: "left == right", 1: "left > right"}
+    for sym in sorted(truth):
+        key = f"fixed_comparison: operator {sym!r} is decided like Python's {sym}"
+        try:
+            wrong = [o for o in (-1, 0, 1) if as_bool(ev(found[sym], o)) is not truth[sym](o)]
+        except Unknown as u:
+            raise AnalysisError(f"fixed_comparison: cannot evaluate `{u}` for operator {sym!r}")
+        if not wrong:
+            r.ok(key, f.loc(found[sym]))
+        else:
+            r.violation(key, f.loc(found[sym]), f"for {names[wrong[0]]} the entry `{norm(found[sym])[:60]}` answers {not truth[sym](wrong[0])}, Python's `{sym}` answers {truth[sym](wrong[0])}: `if sys.version_info[:2] {sym} (3, 12)` on target 3.12 marks the branch that runs as unreachable")
